@@ -433,8 +433,36 @@ def endsWhenDue (ev : List Ev) : Bool :=
   let unreferenced := (strongHandlesAfter ev).isEmpty && inflightAfter ev == 0
   if started && (stopAccepted || unreferenced) then ev.any isJoined else true
 
-def ok (t : Trace) : Bool := neverSpontaneous t.ev
-def okSettled (t : Trace) : Bool := neverSpontaneous t.ev && endsWhenDue t.ev
+/-- the actor's own hook events, for `promptEnd` (on_tell_result belongs to the handler that just ended) -/
+def isLoopEv : Ev → Bool
+  | .startEnd _ | .handlerStart _ | .handlerEnd _ _ | .runPoll _ | .runEnd _ _ | .stopStart _
+  | .stopEnd _ | .termConsumed => true
+  | _ => false
+
+/-- nothing refers to the running actor any more: no strong handle, no operation in progress, every accepted
+    envelope handled, no handler running -/
+def unreferencedAfter (pre : List Ev) : Bool :=
+  pre.any (fun | .startEnd .ok => true | _ => false) &&
+  !(pre.any isStopStart) && !(pre.any isJoined) && !(pre.any isPanicEv) &&
+  (strongHandlesAfter pre).isEmpty && inflightAfter pre == 0 &&
+  ((acceptedBefore pre pre.length).all fun p => if isEnvOp pre p.1 then pre.any (isStart p.1) else true) &&
+  (countP isAnyStart pre == countP (fun | .handlerEnd _ _ => true | _ => false) pre)
+
+/-- `ends when unreferenced`, promptly: from the moment nothing refers to the actor, the next thing its loop
+    does is to stop (on_stop, or first the kill signal) - in particular a pending on_run makes no further
+    progress and does not keep the actor alive -/
+def promptEnd (ev : List Ev) : Bool :=
+  (List.range (ev.length + 1)).all fun n =>
+    if unreferencedAfter (ev.take n) then
+      match (ev.drop n).find? isLoopEv with
+      | none => true
+      | some (.stopStart _) => true
+      | some .termConsumed => true
+      | some _ => false
+    else true
+
+def ok (t : Trace) : Bool := neverSpontaneous t.ev && promptEnd t.ev
+def okSettled (t : Trace) : Bool := neverSpontaneous t.ev && promptEnd t.ev && endsWhenDue t.ev
 end C07
 
 /-! ### C08 — on_run is an idle handler -/
